@@ -715,6 +715,18 @@ std::vector<VariablePtr> equivalentVariables(const VariablePtr &variable);
 bool equalEntities(const EntityPtr &owner, const std::vector<EntityPtr> &entities);
 
 /**
+ * @brief Get the clone of an import source, creating it on first use.
+ *
+ * Entities that share an import source before cloning share the cloned import source afterwards.
+ *
+ * @param importSource The import source to clone.
+ * @param importSources The import sources cloned so far, mapped to their clones.
+ *
+ * @return The clone of the import source.
+ */
+ImportSourcePtr clonedImportSource(const ImportSourcePtr &importSource, ImportSourceMap &importSources);
+
+/**
  * @brief Get all the import sources in the @p model.
  *
  * Get all the import sources from the imported @ref Component s
